@@ -171,6 +171,7 @@ PROPS = {
             {"name": "c04.wam", "pkg": AGENT, "test": "TestVerifC04Wam"},
             {"name": "c04.rest-build", "pkg": AGENT, "test": "TestVerifC04Rest"},
             {"name": "c04.rest-raw", "pkg": AGENT, "test": "TestVerifC04RestRaw"},
+            {"name": "c04.node-records", "pkg": ROUTING, "test": "TestVerifC04NodeRecords", "shards_t": 8, "shards_q": 2, "crash_is_violation": True},
             {"name": "c04.fuzz-bundle", "pkg": BPV7, "kind": "fuzz", "fuzz": "FuzzVerifC04Bundle", "seconds": 150, "tiers": ["thorough"]},
             {"name": "c04.fuzz-adminrecord", "pkg": BPV7, "kind": "fuzz", "fuzz": "FuzzVerifC04AdminRecord", "seconds": 60, "tiers": ["thorough"]},
             {"name": "c04.fuzz-tcpcl", "pkg": MSGS, "kind": "fuzz", "fuzz": "FuzzVerifC04Messages", "seconds": 90, "tiers": ["thorough"]},
